@@ -242,7 +242,7 @@ def env_relative_value(v) -> bool:
     while stack:
         cur = stack.pop()
         if isinstance(cur, str):
-            if _TIME_ONLY.search(cur) or cur.strip().startswith("T"):
+            if _TIME_ONLY.search(cur) or cur.strip().startswith("T") or cur == "now":
                 return True
         elif isinstance(cur, list):
             stack.extend(cur)
